@@ -42,9 +42,9 @@ func (g *rgen) lock() int64 {
 	case x < 18:
 		return 52
 	case x < 19:
-		return 49
+		return []int64{49, 0, 34561}[g.rng.Intn(3)] // outside the message-level range
 	}
-	return 120
+	return 120 // valid for the message, above the asset's maximum block lock
 }
 
 func (g *rgen) create(nowTs int64) chain.M {
